@@ -9,11 +9,18 @@ RULE = ("six representative #[derive(JominiDeserialize)] structs compiled into t
         "orders (capped) x interleaved unknown fields (scalars and nested containers, the aliased field's own name among them) x "
         "occasionally ill-typed values, rendered as text (layouts, encodings) and binary (keys as token ids or strings) through text "
         "slice/tape/ObjectReader/reader and binary tape/on-demand/reader.  The same kv lists are folded by the extracted "
-        "Derive.visit model.  non-trivial = a struct came out")
+        "Derive.visit model.  non-trivial = a struct came out.  Wave 4 (props/C18_attrs.py): the attribute table of every harness struct is READ OFF "
+        "harness/src/fam_derive*.rs (props/C18_table.py) and fed raw to the extracted DeriveMacro.spec_of_attrs / visit_attrs (stream attrs_model, all 24 "
+        "instances) and to the extracted declarative DeriveMacro.spec_visit (attrs_spec, well-typed inputs); 14 more instances (deserialize_with in every "
+        "accepted combination, token + alias/deserialize_with/default fn, Vec<[T;N]> arm, one type parameter with and without where clause / inline bound, "
+        "Cow fields, fields named like another field's alias, second alias, default/take_last/duplicated combinations, nested generic derived structs) through "
+        "the same seven paths against the field semantics (attrs_paths); perm: one document in three orders that keep each field's own sequence, outputs "
+        "must be equal (no model, no spec; token structs get the same field by id and by name); intkeys: unknown fields with integer-token keys in binary")
 TRUSTED = ["the proc-macro expansion itself is tied by correspondence only (no macro expansion tool offline): Derive.visit models the code "
            "that jomini_derive/src/lib.rs generates", "serde's primitive visitors and IgnoredAny"]
 ASSUMPTIONS = ["an `alias` replaces the field's own name (the generated visit_str matches the alias only): the own name is then an unknown field",
-               "unknown keys are strings or token ids (an integer key makes the generated field visitor fail: serde's default visit_i32)",
+               "streams paths/model/attrs_*: unknown keys are strings or token ids; integer-token keys are run by the intkeys stream (finding int-key-rejected)",
+               "the deserialize_with functions and default functions of the harness are known to the specification by name / by their literal body (props/C18_attrs.py:WITH, C18_table.fn_value)",
                "text inputs follow the C02 layout assumptions; token structs get no numeric unknown keys in text (deserialize_u16 parses them)"]
 
 F = lambda name, sh, key=None, dup="once", miss="req", token=None: dict(name=name, key=key or name, sh=sh, dup=dup, miss=miss, token=token)
@@ -36,6 +43,7 @@ STRUCTS = {
     "DD": [F("a", ("u", 8)), F("b", "str"), F("c", "bool")],
     "DE": [F("n", ("i", 64), dup="dup"), F("t", "str", dup="last", miss=("def", "(none)")), F("f", "f32", dup="dup"), F("z", "bool", miss=("def", "(none)"))],
 }
+ALL = dict(STRUCTS)          # every instance the generators know (the attribute-table part adds its own: props/C18_attrs.py)
 OPTION_FIELDS = {("DH", "opt_q"), ("DH", "opt_c"), ("DA", "first"), ("DB", "last"), ("DC", "opt_sub"), ("DE", "t"), ("DE", "z")}
 
 
@@ -160,7 +168,7 @@ def gen_fit(rng, sh, st, bad=0.0):
     if k == "seq":
         return {"t": "arr", "v": [gen_fit(rng, sh[1], st) for _ in range(rng.choice([0, 1, 2, 3]))]}
     if k == "derived":
-        S = STRUCTS[sh[1]]
+        S = ALL[sh[1]]
         mult = [rng.choice([1, 1, 1, 0, 2]) if f["dup"] == "once" and f["miss"] == "req" else rng.choice([0, 1, 1, 2, 3]) for f in S]
         if rng.random() < 0.7:
             mult = [1 if (f["dup"] == "once" and f["miss"] == "req") else m for f, m in zip(S, mult)]
@@ -174,7 +182,7 @@ def gen_fit(rng, sh, st, bad=0.0):
 
 
 def build_obj(rng, sname, order, st, unknowns, bad, foreign=None):
-    S = STRUCTS[sname]
+    S = ALL[sname]
     tokened = S[0]["token"] is not None
     fields = []
     st = dict(st, _parent_keys=[(f["key"], f["token"]) for f in S])
@@ -303,6 +311,11 @@ def run(ctx):
             ctx.fail("field-semantics-" + p.split(":")[0], "%s path on %s returns %s, the field semantics say %s" % (p, cases[k].split("\t")[-2], o[:200], exp[:200]), [cases[k]], [o], exp)
     # the extracted Derive.visit folds the same key/value lists (values pre-evaluated per occurrence)
     ctx.correspond("model", mcases, nontrivial=nt)
+    # >>> a_c18 (wave 4): attribute tables read off the harness source, new instances, spec_visit, order independence, integer keys
+    from props import C18_attrs
+    import sys
+    C18_attrs.run(ctx, sys.modules[__name__])
+    # <<< a_c18
 
 
 def search(ctx):
@@ -318,6 +331,6 @@ def search(ctx):
 
 CLAIM = {
     "text": "Coq theorems over Derive.visit (the visitor generated by jomini_derive as a fold over the key/value list): order independence given the relative order per field, duplicated collects in order, take_last keeps the last, other duplicates rejected, missing -> default or error, alias/token select, unknown ignored - for all field specs and inputs; the derive itself is tied by running six derived structs through all seven deserializer paths against the Python field-semantics spec and against the extracted model",
-    "note": "The proc-macro expansion is not verified (tied by correspondence). Theorems assume the values of the matched fields deserialize successfully where stated (error priority between a bad value and a duplicate depends on the order by design).",
+    "note": "Wave 4: C18_visit_is_spec (the visitor = the declarative reading, values_ok), error kinds on the whole visitor, order independence without side condition, attribute-table precedence (DeriveMacro.spec_of_attrs, instantiated from the harness source by props/C18_table.py). The proc-macro expansion is not verified (tied by correspondence). Theorems assume the values of the matched fields deserialize successfully where stated (error priority between a bad value and a duplicate depends on the order by design).",
     "technique": "machine-checked proof in Coq over an executable model + model/implementation correspondence by extraction + specification oracle on the implementation",
 }
